@@ -469,6 +469,7 @@ func checkC08(w *World, r *Report) {
 	checkPrecedenceDescent(w, r)
 	checkNumberFormatting(w, r)
 	checkMembershipEquality(w, r, evalCases)
+	checkRelationalNumericFirst(w, r, evalCases)
 }
 
 func keysOf(m map[int64]bool) []int64 {
@@ -1156,4 +1157,113 @@ func checkMembershipEquality(w *World, r *Report, evalCases map[string]*ast.Case
 		}
 	}
 	r.Counts["membership operators checked against =="] = n
+}
+
+// checkRelationalNumericFirst — R08.9: `<  >  <=  >=` compare numbers wherever both operands are
+// numbers or numeric strings.  In evaluateBinaryOp and the package helpers its relational arms
+// hand the operands to, an ordering of two strings (`a < b` on strings, strings.Compare) is at
+// most a fallback: it is dominated by the failure edge of the numeric conversion the arm uses.
+// A string ordering tried first makes '10' < '9' true although 10 < 9 is false.
+func checkRelationalNumericFirst(w *World, r *Report, evalCases map[string]*ast.CaseClause) {
+	evalFn := w.ssaFunc(w.method("RenderContext", "evaluateBinaryOp"))
+	// the numeric conversion: a (float64, bool) function of the package called in the "<" arm
+	var conv *types.Func
+	fns := map[*ssa.Function]bool{evalFn: true}
+	for _, op := range []string{"<", ">", "<=", ">="} {
+		arm := evalCases[op]
+		if arm == nil {
+			continue
+		}
+		ast.Inspect(arm, func(n ast.Node) bool {
+			call, ok := n.(*ast.CallExpr)
+			if !ok {
+				return true
+			}
+			fo := w.callee(call)
+			if fo == nil || fo.Pkg() == nil || fo.Pkg().Path() != twigPath {
+				return true
+			}
+			sig := fo.Type().(*types.Signature)
+			if sig.Results().Len() == 2 && types.Identical(sig.Results().At(1).Type(), types.Typ[types.Bool]) {
+				if b, ok := sig.Results().At(0).Type().Underlying().(*types.Basic); ok && b.Info()&types.IsFloat != 0 && sig.Params().Len() == 1 {
+					conv = fo
+					return true
+				}
+			}
+			fns[w.ssaFunc(fo)] = true
+			return true
+		})
+	}
+	if conv == nil {
+		// the arms delegate everything to a helper: the conversion is called there
+		for fn := range fns {
+			if fn == nil {
+				continue
+			}
+			instrsOf(fn, func(in ssa.Instruction) {
+				if c, ok := in.(*ssa.Call); ok && conv == nil {
+					if fo := calleeFunc(c); fo != nil && fo.Pkg() != nil && fo.Pkg().Path() == twigPath {
+						sig := fo.Type().(*types.Signature)
+						if sig.Results().Len() == 2 && sig.Params().Len() == 1 && types.Identical(sig.Results().At(1).Type(), types.Typ[types.Bool]) {
+							if b, ok := sig.Results().At(0).Type().Underlying().(*types.Basic); ok && b.Info()&types.IsFloat != 0 {
+								conv = fo
+							}
+						}
+					}
+				}
+			})
+		}
+	}
+	n := 0
+	for fn := range fns {
+		if fn == nil || len(fn.Blocks) == 0 {
+			continue
+		}
+		instrsOf(fn, func(in ssa.Instruction) {
+			what := ""
+			switch x := in.(type) {
+			case *ssa.BinOp:
+				switch x.Op {
+				case token.LSS, token.GTR, token.LEQ, token.GEQ:
+					if b, ok := x.X.Type().Underlying().(*types.Basic); ok && b.Info()&types.IsString != 0 {
+						what = "string " + x.Op.String() + " string"
+					}
+				}
+			case *ssa.Call:
+				if f := calleeFunc(x); f != nil && f.FullName() == "strings.Compare" {
+					what = "strings.Compare"
+				}
+			}
+			if what == "" {
+				return
+			}
+			n++
+			construct := "string ordering only after the numeric comparison was impossible"
+			good := false
+			if conv != nil {
+				fl := &boolFlow{fn: fn, entry: false}
+				fl.edge = func(b *ssa.BasicBlock, i int) bool {
+					return anyEdgeFact(b, i, func(v ssa.Value, trueIdx int) bool {
+						ex, ok := v.(*ssa.Extract)
+						if !ok || ex.Index != 1 {
+							return false
+						}
+						c, ok := ex.Tuple.(*ssa.Call)
+						return ok && calleeFunc(c) == conv && i != trueIdx
+					})
+				}
+				fl.solve()
+				good = fl.at(in)
+			}
+			if good {
+				r.ok("R08.9", ssaName(fn), construct, w.posOf(in.Pos()), "dominated by the failure edge of the numeric conversion", true)
+			} else {
+				r.bad("R08.9", ssaName(fn), construct, w.posOf(in.Pos()), "a relational operator orders its operands as strings ("+what+") on a path on which the numeric conversion has not failed: two numeric strings are then compared by spelling, so '10' < '9' is true and '-1' > '-2' is false while the same values as numbers compare the other way")
+			}
+		})
+	}
+	r.Counts["string orderings in the relational arms"] = n
+	if n == 0 {
+		r.ok("R08.9", ssaName(evalFn), "relational operators never order strings", "-", "no string ordering in evaluateBinaryOp or the helpers of its relational arms", false)
+	}
 }
